@@ -405,3 +405,103 @@ theorem provide_decorate_swap_plain (ctx : Ctx) (fP fD : Fn) (st : St) (iP iD sP
   provide_decorate_swap ctx fP fD st iP iD sP sD o cb info _ (fun x => parseParams_plain ctx.env fD h x sD)
 
 end Dig
+
+/-! ### creating a scope -/
+
+namespace Dig
+
+theorem dtr_copyOrder (T : Nat → List (Key × Nat)) (ds : List DecoNode) (child parent : Nat) (st : St) (g : GNode) :
+    copyOrder child parent (dtr T ds st) g = dtr T ds (copyOrder child parent st g) := by
+  cases g <;> rfl
+
+/-- `Scope.Scope` commutes with a replacement of the decorator tables that gives the new scope an empty one -/
+theorem dtr_apiScope (T : Nat → List (Key × Nat)) (ds : List DecoNode) (st : St) (parent : Nat)
+    (hT : T st.scopes.length = []) : apiScope (dtr T ds st) parent = dtr T ds (apiScope st parent) := by
+  unfold apiScope
+  simp only [dtr_len, (dtr_scope_fields T ds st parent).2.2.2.2.2.2.2.2.2]
+  have e1 : ({ dtr T ds st with scopes := (dtr T ds st).scopes ++ [({ parent := some parent, gh := (st.scope parent).gh } : ScopeSt)] } : St) =
+      dtr T ds { st with scopes := st.scopes ++ [({ parent := some parent, gh := (st.scope parent).gh } : ScopeSt)] } := by
+    unfold dtr dset
+    simp only [List.mapIdx_append, List.mapIdx_cons, List.mapIdx_nil, Nat.zero_add, hT]
+  rw [e1, dtr_modScope T ds _ parent _ (fun _ _ => rfl)]
+  generalize (St.modScope { st with scopes := st.scopes ++ [_] } parent _) = v
+  generalize (st.scope parent).gh = l
+  induction l generalizing v with
+  | nil => rfl
+  | cons x xs ih => simp only [List.foldl_cons]; rw [dtr_copyOrder]; exact ih _
+end Dig
+
+namespace Dig
+
+theorem scope_default_of_ge (st : St) (j : Nat) (h : st.scopes.length ≤ j) : st.scope j = { parent := none } := by
+  unfold St.scope; rw [List.getD_eq_getElem?_getD, List.getElem?_eq_none h]; rfl
+
+theorem apiScope_len (st : St) (parent : Nat) : (apiScope st parent).scopes.length = st.scopes.length + 1 := by
+  unfold apiScope
+  simp only
+  generalize (st.scope parent).gh = l
+  have h0 : (St.modScope { st with scopes := st.scopes ++ [({ parent := some parent, gh := l } : ScopeSt)] } parent
+      fun x => { x with children := x.children ++ [st.scopes.length] }).scopes.length = st.scopes.length + 1 := by
+    simp [St.modScope]
+  generalize (St.modScope { st with scopes := st.scopes ++ [({ parent := some parent, gh := l } : ScopeSt)] } parent _) = v at h0 ⊢
+  induction l generalizing v with
+  | nil => exact h0
+  | cons x xs ih =>
+    simp only [List.foldl_cons]
+    apply ih
+    cases x <;> simpa [copyOrder, St.modCtor] using h0
+
+/-- `Scope.Scope` leaves the decorator nodes and every decorator table as they are (the new scope's is empty) -/
+theorem apiScope_decos (st : St) (parent : Nat) :
+    (apiScope st parent).decos = st.decos ∧ ∀ j, ((apiScope st parent).scope j).decorators = (st.scope j).decorators := by
+  have hT : (fun j => (st.scope j).decorators) st.scopes.length = [] := by
+    simp only [scope_default_of_ge st st.scopes.length (Nat.le_refl _)]
+  have h := dtr_apiScope (fun j => (st.scope j).decorators) st.decos st parent hT
+  rw [dtr_self] at h
+  constructor
+  · rw [h]; rfl
+  · intro j
+    rw [h, dtr_scope, dset_scope]
+    split
+    · rfl
+    · rename_i hj
+      rw [apiScope_len] at hj
+      rw [scope_default_of_ge _ j (by rw [apiScope_len]; omega), scope_default_of_ge st j (by omega)]
+
+/-- **creating a child scope and an adjacent Decorate can be swapped** when the decorator takes positional parameters
+    only and decorates an existing scope: the same answer, the same container -/
+theorem scope_decorate_swap (ctx : Ctx) (fD : Fn) (st : St) (parent iD sD : Nat) (cb info : Bool) (hsD : sD < st.scopes.length)
+    (h : ∀ t ∈ (if fD.variadic then fD.ins.dropLast else fD.ins), ∃ i, t = GoT.univ i) :
+    (apiDecorate ctx fD (apiScope st parent) iD sD cb info).1 = apiScope (apiDecorate ctx fD st iD sD cb info).1 parent ∧
+    (apiDecorate ctx fD (apiScope st parent) iD sD cb info).2 = (apiDecorate ctx fD st iD sD cb info).2 := by
+  cases hnf : fD.nonfunc with
+  | some v =>
+    have e : ∀ x, apiDecorate ctx fD x iD sD cb info = (x, { v := .err .invalid0 }) := by
+      intro x; unfold apiDecorate; simp only [hnf]
+    rw [e, e]
+    exact ⟨rfl, rfl⟩
+  | none =>
+    obtain ⟨hdecos, htbl⟩ := apiScope_decos st parent
+    rw [apiDecorate_decide ctx fD _ iD sD cb info hnf _ (parseParams_plain ctx.env fD h _ sD),
+      apiDecorate_decide ctx fD st iD sD cb info hnf _ (parseParams_plain ctx.env fD h _ sD), htbl sD, hdecos]
+    cases decoDecide ctx fD iD sD cb info _ (st.scope sD).decorators with
+    | error e => exact ⟨rfl, rfl⟩
+    | ok x =>
+      obtain ⟨node, keys, res⟩ := x
+      simp only
+      have h1 := dtr_of_modScope st (st.decos ++ [node]) sD (fun t => keys.foldl (fun m k => aset m k st.decos.length) t)
+      have h2 := dtr_of_modScope (apiScope st parent) (st.decos ++ [node]) sD
+        (fun t => keys.foldl (fun m k => aset m k st.decos.length) t)
+      refine ⟨?_, trivial⟩
+      rw [h1, dtr_apiScope, h2]
+      · congr 1
+        funext j
+        rw [htbl j]
+      · -- the new scope gets an empty table
+        show (if st.scopes.length = sD then _ else _) = []
+        have hd := scope_default_of_ge st st.scopes.length (Nat.le_refl _)
+        split
+        · rename_i hs; omega
+        · rw [hd]
+
+end Dig
